@@ -270,6 +270,7 @@ int Simulate1802::run(int cycles, int step)
 
   printf("Running... Press Ctl-C to break.\n");
 
+  enable_signal_handler();
   stop_running = false;
 
   while (stop_running == false)
